@@ -93,14 +93,20 @@ func NewDnsConn(opt TraditionalDnsConnOpts, conn NetConn) *TraditionalDnsConn {
 }
 
 // exchange sends q out and waits for its reply.
-func (dc *TraditionalDnsConn) exchange(ctx context.Context, q []byte) (*[]byte, error) {
+// If reserved is true, the caller holds a reservation from ReserveNewQuery.
+// The reservation is released at the moment the query enters the queue, so
+// that one query never counts twice against the connection's limit.
+func (dc *TraditionalDnsConn) exchange(ctx context.Context, q []byte, reserved bool) (*[]byte, error) {
 	select {
 	case <-dc.closeNotify:
+		if reserved {
+			(*tdcOneTimeExchanger)(dc).WithdrawReserved()
+		}
 		return nil, ErrTDCClosed
 	default:
 	}
 
-	assignedQid, respChan := dc.addQueueC()
+	assignedQid, respChan := dc.addQueueC(reserved)
 	if respChan == nil {
 		return nil, ErrTDCTooManyQueries
 	}
@@ -258,9 +264,13 @@ func (dc *TraditionalDnsConn) queueLen() int {
 // addQueueC assigns a qid and add it to the queue.
 // It returns a nil c if queue has too many queries.
 // Caller must call deleteQueueC to release the qid in queue.
-func (dc *TraditionalDnsConn) addQueueC() (qid uint16, c chan *[]byte) {
+// If releaseReserved is true, one reservation is released under the same lock.
+func (dc *TraditionalDnsConn) addQueueC(releaseReserved bool) (qid uint16, c chan *[]byte) {
 	c = make(chan *[]byte, 1) // buffered: readLoop hands the reply over without blocking.
 	dc.queueMu.Lock()
+	if releaseReserved {
+		dc.reservedQuery--
+	}
 	for i := 0; i < 100; i++ {
 		qid = dc.nextQid
 		dc.nextQid++
@@ -302,8 +312,7 @@ type tdcOneTimeExchanger TraditionalDnsConn
 var _ ReservedExchanger = (*tdcOneTimeExchanger)(nil)
 
 func (ote *tdcOneTimeExchanger) ExchangeReserved(ctx context.Context, q []byte) (resp *[]byte, err error) {
-	defer ote.WithdrawReserved()
-	return (*TraditionalDnsConn)(ote).exchange(ctx, q)
+	return (*TraditionalDnsConn)(ote).exchange(ctx, q, true)
 }
 
 func (ote *tdcOneTimeExchanger) WithdrawReserved() {
